@@ -40,8 +40,8 @@ SEEDED_SCALE = {"quick": 3, "thorough": 5}      # multiplies the run counts of t
 
 def plan(tier):
     if tier == "quick":
-        return [("AsyncFIFO", 60), ("CDC", 60), ("CDCSame", 16), ("BusSync", 80), ("CDCReset", 40), ("AXILiteCDC", 40)]
-    return [("AsyncFIFO", 3000), ("CDC", 3000), ("CDCSame", 300), ("BusSync", 4000), ("CDCReset", 2000), ("AXILiteCDC", 2000)]
+        return [("AsyncFIFO", 60), ("CDC", 60), ("CDCSame", 16), ("BusSync", 80), ("CDCReset", 40), ("AXILiteCDC", 40), ("UART", 40)]
+    return [("AsyncFIFO", 3000), ("CDC", 3000), ("CDCSame", 300), ("BusSync", 4000), ("CDCReset", 2000), ("AXILiteCDC", 2000), ("UART", 2000)]
 
 
 def count_dom(schedule, d):
@@ -52,6 +52,9 @@ def count_dom(schedule, d):
 def generate(family, rng, tier):
     n_ticks = rng.choice([300, 600, 1000])
     scn = {"family": family}
+    if family == "UART":
+        from props import c05_uart
+        return c05_uart.generate(rng, tier)
     if family == "AXILiteCDC":
         # AXILiteClockDomainCrossing: memory semantics through five stream crossings (oracle and agents of C09)
         from props import c09
@@ -234,6 +237,9 @@ class ResetPulser(Agent):
 
 def run(scn):
     fam = scn["family"]
+    if fam == "UART":
+        from props import c05_uart
+        return c05_uart.run(scn)
     if fam == "AXILiteCDC":
         from props import c09
         res = c09.run1(scn)
